@@ -17,10 +17,10 @@ class Transition:
     name = 'transition'
     sizes = {'Topic': 1, 'Subscription': 2, 'Message': 2, 'Delivery': 3}
     witness_count = 1
+    strkeys = ('k',)
     thorough = False
     exists = True      # every row slot exists (absence is covered by symbolic foreign keys); None = symbolic
     dialect = 'sqlite3'
-    strkeys = ()
 
     def prepare_db(self, ex, db):
         pass
@@ -71,6 +71,13 @@ class Transition:
             for v in args.values():
                 if isinstance(v, OpaqueBytes) and is_sym(v.len):
                     small.append(v.len <= 40)
+            # pin the uninterpreted filter predicates to the real semantics on a two-filter vocabulary (true facts, so sound to assume)
+            flts = [r.v['filter'] for r in pre.get('Subscription', [])] + [args.get('filter')]
+            amaps = [r.v['attributes'] for r in pre.get('Message', [])] + [v for k, v in args.items() if isinstance(v, SymMap) and k in ('attrs', 'attributes')]
+            for ax in filter_axioms(flts, amaps):
+                ex.assume(ax)
+            small += filter_vocab_pref(flts)
+
             def margins(ex_, pre=pre, args=args):
                 # stored instants and time arguments lie at least a minute away from the clock readings of the step,
                 # and the step itself takes under a millisecond
@@ -142,6 +149,9 @@ class Transition:
         args = {k: v for k, v in w['args'].items()}
         S = Step(pre.t, post.t, self.args_to_model(args), nows, err, res)
         S.concrete = True
+        flts = [r.v['filter'] for e_ in (pre, post) for r in e_.t.get('Subscription', [])] + [S.args.get('filter')]
+        amaps = [r.v['attributes'] for e_ in (pre, post) for r in e_.t.get('Message', [])] + [v for k, v in S.args.items() if isinstance(v, SymMap)]
+        cons += filter_axioms([f for f in flts if isinstance(f, str)], amaps)
         S.results = results
         verdicts = {}
         for label, f in self.oracle(ex, S):
